@@ -31,7 +31,8 @@ def const_text(sw: Dict[str, bool], max_ticks: int, max_env: int, cfgs: str = "C
 
 
 def env_alphabet(workers: int) -> List[List[Any]]:
-    return [["die", i] for i in range(workers)] + [["sighup"], ["sigint"], ["reload"]]
+    # a worker may crash (status 1) or exit cleanly (status 0, e.g. after max-tasks-per-child): both must be replaced
+    return [["die", i, i % 2] for i in range(workers)] + [["sighup"], ["sigint"], ["reload"]]
 
 
 def gen_enum(workers: int, max_fails: int, depth: int, per_pos: int) -> Iterator[Dict[str, Any]]:
@@ -61,7 +62,9 @@ def gen_random(seed: int, n: int, long: bool) -> List[Dict[str, Any]]:
             tk: Dict[str, Any] = {"sleep": [], "drained": []}
             for pos in ("sleep", "drained"):
                 while rng.random() < p_ev and len(tk[pos]) < 3:
-                    ev = rng.choice(alpha)
+                    ev = list(rng.choice(alpha))
+                    if ev[0] == "die":
+                        ev[2] = rng.choice([0, 1, 1, -9])
                     if ev[0] == "sigint" and rng.random() < (0.8 if long else 0.5):
                         continue
                     tk[pos].append(ev)
